@@ -2,6 +2,7 @@
    of the compiled predicate kernel (_filter.pyx:41-52) at the array level (L2). *)
 From Coq Require Import List Arith ZArith Lia Bool.
 From BiomV Require Import Base.Tree Base.ListUtil Base.Matrix Model.Table.
+From BiomV Require Export Gen.FilterGen.
 Import ListNotations.
 
 (* keep the vectors of axis [a] at the positions where [mask] is true
@@ -55,14 +56,12 @@ Section Rebuild.
   Variable data : list Z.
   Variable indices : list nat.
 
-  Definition rebuild_body (end_ : nat) (st : nat * list Z) (j : nat) : nat * list Z :=
-    let '(start, row) := st in
-    if (end_ <=? start) || (j <? nth start indices 0) then (start, upd row j 0%Z)
-    else if j =? nth start indices 0 then (S start, upd row j (nth start data 0%Z))
-    else (start, row).      (* no branch taken: the reused buffer keeps its old value *)
+  (* rebuild_body is GENERATED from the loop above by tools/py2v (Gen/FilterGen.v, regenerated on
+     every check): rebuild_body data indices end_ (start, row) j.  When no branch is taken the
+     reused buffer keeps its old value. *)
 
   Definition rebuild (n start end_ : nat) (row0 : list Z) : nat * list Z :=
-    fold_left (rebuild_body end_) (seq 0 n) (start, row0).
+    fold_left (rebuild_body data indices end_) (seq 0 n) (start, row0).
 
   (* the dense vector a segment denotes: position j holds the value stored with index j *)
   Fixpoint seg_lookup (k : nat) (start len : nat) : Z :=
